@@ -163,6 +163,27 @@ impl Val for Ns {
         Ns((mixf(seed, 27) % 13) as i64, std::rc::Rc::new(()))
     }
 }
+/// A value that is `Send` but not `Sync` (holds a Cell): the spawning macros document `Send +
+/// 'static` only, so they must accept it (C07).
+pub struct Sn(pub std::cell::Cell<i64>);
+impl Debug for Sn {
+    fn fmt(&self, f: &mut std::fmt::Formatter<'_>) -> std::fmt::Result {
+        write!(f, "Sn({})", self.0.get())
+    }
+}
+impl Default for Sn {
+    fn default() -> Self {
+        Sn(std::cell::Cell::new(0))
+    }
+}
+impl Val for Sn {
+    fn hashv(&self) -> u64 {
+        mixf(self.0.get() as u64, 33)
+    }
+    fn build(seed: u64) -> Self {
+        Sn(std::cell::Cell::new((mixf(seed, 34) % 13) as i64))
+    }
+}
 /// A move-only value (`Send`, not `Clone`).
 pub struct Mv(pub i64);
 impl Debug for Mv {
